@@ -5,3 +5,4 @@ import rules_incr
 import rules_watch
 import rules_exit
 import rules_config
+import rules_fs
